@@ -97,7 +97,7 @@ func c12Message(mid string) *fbb.Message {
 
 func runC12(ctx *Ctx) error {
 	r, res := ctx.Rng, ctx.Res
-	res.Rule = "every fourth stored message also carries the mailbox-private header names X-FilePath (pointing outside the mailbox), X-Unread and X-P2POnly as a remote station could set them; cases: MID byte strings (separators, dot-dot segments, absolute, empty, 1..300 bytes, non-ASCII, NUL, backslash, plus ordinary MIDs) x {ProcessInbound, GetInboundAnswer, SetSent/SetDeferred, AddOut} on a DirHandler inside a sandbox tree with decoy files around the mailbox and the process's TMPDIR pointing into the sandbox (outside the mailbox); recursive snapshots before/after give the touched paths. Compared with the model's touched paths; oracle: every touched path is inside the mailbox directory. Non-trivial: MID containing a separator, a dot segment, NUL or non-ASCII; distinct by (op, MID)."
+	res.Rule = "every fourth stored message also carries the mailbox-private header names X-FilePath (pointing outside the mailbox), X-Unread and X-P2POnly as a remote station could set them; cases: MID byte strings (separators, dot-dot segments, absolute, empty, 1..300 bytes, non-ASCII, NUL, backslash, plus ordinary MIDs) x {ProcessInbound, GetInboundAnswer, SetSent/SetDeferred, AddOut} on a DirHandler inside a sandbox tree (every third one below directories named like the mailbox's own folders, with the same structure beside it) with decoy files around the mailbox and the process's TMPDIR pointing into the sandbox (outside the mailbox); recursive snapshots before/after give the touched paths. Compared with the model's touched paths; oracle: every touched path is inside the mailbox directory. Non-trivial: MID containing a separator, a dot segment, NUL or non-ASCII; distinct by (op, MID)."
 	root, err := os.MkdirTemp("", "verif-c12-")
 	if err != nil {
 		return err
@@ -138,9 +138,16 @@ func runC12(ctx *Ctx) error {
 			}
 			sb := filepath.Join(root, fmt.Sprintf("sb%d_%d", i, op))
 			mbox := filepath.Join(sb, "a", "b", "mbox")
+			decoys := []string{"x.b2f", "a/x.b2f", "a/b/x.b2f", "a/b/y.b2f", "decoy/victim.b2f", "a/b/mbox/x.b2f", "a/b/in/dup.b2f"}
+			if i%3 == 2 {
+				// a mailbox that lives below directories named like its own folders, with the same
+				// folder structure next to it (paths are built from the mailbox path, not by rewriting it)
+				mbox = filepath.Join(sb, "out", "in", "mbox")
+				decoys = append(decoys, "sent/in/mbox/out/d.b2f", "sent/in/mbox/sent/d.b2f", "sent/in/mbox/in/d.b2f", "out/out/mbox/in/d.b2f", "in/in/mbox/out/d.b2f", "out/in/x.b2f")
+			}
 			os.MkdirAll(mbox, 0o755)
 			// decoys around the mailbox
-			for _, d := range []string{"x.b2f", "a/x.b2f", "a/b/x.b2f", "a/b/y.b2f", "decoy/victim.b2f", "a/b/mbox/x.b2f", "a/b/in/dup.b2f"} {
+			for _, d := range decoys {
 				os.MkdirAll(filepath.Dir(filepath.Join(sb, d)), 0o755)
 				os.WriteFile(filepath.Join(sb, d), []byte("decoy"), 0o644)
 			}
